@@ -50,6 +50,9 @@ def worlds(tier: str, stats: Dict[str, Any]) -> Iterator[Any]:
         for combo in itertools.combinations_with_replacement(allu, n):
             stats["transitions"] += 1
             yield dict(units=[list(u) for u in combo])
+            if n >= 2:
+                stats["transitions"] += 1
+                yield dict(units=[list(u) for u in combo], file_order="reversed")
             seen.add(tuple(map(tuple, combo)))
     for n in range(b["U"] + 1, b["Uk"] + 1):
         for combo in itertools.combinations_with_replacement([k for k in ks if k[1] == 7], n):
@@ -80,6 +83,13 @@ def build(units) -> List[Dict[str, Any]]:
         elif u[0] == "UY":
             evs.append(kineto.memcpy(CT[u[1]], E0 + u[4], u[3], 9, corr, bw=BW[u[2]]))
         corr += 1
+    return evs
+
+
+def build_world(w) -> List[Dict[str, Any]]:
+    evs = build(w["units"])
+    if w.get("file_order") == "reversed":
+        evs = evs[:1] + evs[1:][::-1]   # Kineto does not write events in time order
     return evs
 
 
@@ -141,7 +151,7 @@ def check(world) -> Dict[str, Any]:
     from mc import htaenv
 
     viol: List[Any] = []
-    evs0, evs1 = build(world["units"]), build(RANK1)
+    evs0, evs1 = build_world(world), build(RANK1)
     ranks = {0: evs0, 1: evs1}
     exp = {r: expected(e) for r, e in ranks.items()}
     m = E0 - 1
